@@ -17,7 +17,13 @@ def r1(ctx: Ctx) -> None:
     n = 0
     for p in normal_paths(ctx.paths(JE)):
         wl = [l for l in loops(p) if l.loopkind == "while"]
-        ctx.check(len(wl) == 1, f, f.node, "one loop following the `extends` chain", "while 'extends' in results", f"{len(wl)} loop(s)")
+        if not wl and any(calls_target(e, JE) for e in calls(p)):
+            ctx.unrec(f, f.node, "the `extends` chain is followed to its end", "the chain is followed by recursion; the rule models the loop form only")
+            n += 1
+            continue
+        if not wl and not any("extends" in key(strip_ver(c)) for c, _, _ in p.conds):
+            continue
+        ctx.check(len(wl) == 1 or (not wl and any(pol is False and "extends" in key(strip_ver(c)) for c, pol, _ in p.conds)), f, f.node, "one loop following the `extends` chain", "while 'extends' in results", f"{len(wl)} loop(s)")
         if len(wl) != 1:
             continue
         l = wl[0]
